@@ -1041,6 +1041,29 @@ func (c *Ctx) runInputs(kinds *core.Kinds) {
 		c.R.Add("INPUT-C", "inputBuilder|every-generated-converter-registered", "inputBuilder", p.Pos(ib.Pos()), generated,
 			"every converter a generator returns is added to the resolution graph", whyG)
 	}
+	// every generator is consulted for every value: the loop around the generator call is left only when the
+	// generators are exhausted or with an error (a declining generator must not end the loop for the ones after it)
+	for _, g := range p.Region(ib) {
+		for _, ci := range core.Calls(g) {
+			cc := ci.Common()
+			if cc.IsInvoke() || cc.StaticCallee() != nil || core.TypeStr(cc.Value.Type()) != "ConverterGenFunc" {
+				continue
+			}
+			var inner *loopInfo
+			for _, lp := range naturalLoops(g) {
+				lp := lp
+				if lp.body[ci.Block()] && (inner == nil || len(lp.body) < len(inner.body)) {
+					inner = &lp
+				}
+			}
+			if inner == nil {
+				continue
+			}
+			w := c.silentLoopExit(inner.header, inner.body)
+			c.R.Add("INPUT-C", "generators|every-generator-consulted|"+core.FuncName(g), core.FuncName(g), p.InstrPos(ci), w == "",
+				"the loop over the converter generators is left only when they are exhausted or with an error: every generator sees every value", ternary(w == "", "exhaustion or error exits only", w))
+		}
+	}
 	// option closures key the typed maps by the value's own type
 	n := 0
 	for _, f := range p.ArgFuncs() {
